@@ -880,6 +880,44 @@ fn run_recorded(f: &Forest, prog: u32, env: u32, plan: (u64, u64), flags: ClvmFl
     Some((o, before, copies))
 }
 
+/// runs the program; in the diagnostics build the allocator counts are sampled at every evaluation step
+/// (pre- and post-eval callbacks, observe only) and the component-wise peak is returned, otherwise the final counts
+fn run_sampled(a: &mut Allocator, flags: ClvmFlags, p: NodePtr, e: NodePtr) -> (crate::outcome::Outcome, crate::outcome::Counts, u64) {
+    #[cfg(feature = "diag")]
+    {
+        use std::cell::Cell;
+        use std::rc::Rc;
+        let peak = Rc::new(Cell::new((0usize, 0usize, 0usize, 0u64)));
+        let sample = |pk: &Rc<Cell<(usize, usize, usize, u64)>>, a: &Allocator| {
+            let (x, y, z, n) = pk.get();
+            pk.set((x.max(a.atom_count()), y.max(a.pair_count()), z.max(a.heap_size()), n + 1));
+        };
+        let pk2 = peak.clone();
+        let cb: clvmr::run_program::PreEval = Box::new(move |a, _prog, _env| {
+            sample(&pk2, a);
+            let pk3 = pk2.clone();
+            let f: Box<clvmr::run_program::PostEval> = Box::new(move |a, _n| {
+                let (x, y, z, n) = pk3.get();
+                pk3.set((x.max(a.atom_count()), y.max(a.pair_count()), z.max(a.heap_size()), n + 1));
+            });
+            Ok(Some(f))
+        });
+        let d = clvmr::chia_dialect::ChiaDialect::new(flags);
+        let r = crate::outcome::guarded(|| clvmr::run_program::run_program_with_pre_eval(a, &d, p, e, 0, Some(cb)));
+        let (res, node) = crate::outcome::res_of(a, r);
+        let fin = counts(a);
+        let (x, y, z, n) = peak.get();
+        let pk = crate::outcome::Counts { atoms: x.max(fin.atoms), pairs: y.max(fin.pairs), heap: z.max(fin.heap) };
+        (crate::outcome::Outcome { res, node, counts: fin, allocated: crate::outcome::allocated(a) }, pk, n)
+    }
+    #[cfg(not(feature = "diag"))]
+    {
+        let o = crate::outcome::run_chia(a, flags, p, e, 0);
+        let c = counts(a);
+        (o, c, 0)
+    }
+}
+
 fn sweep_program(ctx: &mut Ctx, r: &mut Rng, f: &Forest, prog: u32, env: u32, flags: ClvmFlags, max_need: usize, vary: u64) {
     struct P {
         prog: u32,
@@ -939,8 +977,9 @@ fn sweep_program(ctx: &mut Ctx, r: &mut Rng, f: &Forest, prog: u32, env: u32, fl
             _ => (None, None, Some(d)),
         };
         let Some((mut a, pp, ee, limit)) = prepared(&f, p.prog, p.env, plan, hr, ar, pr) else { return };
-        let o2 = crate::outcome::run_chia(&mut a, flags, pp, ee, 0);
-        let c = counts(&a);
+        let (o2, peak, samples) = run_sampled(&mut a, flags, pp, ee);
+        ctx.add("per_step_count_samples", samples);
+        let c = peak;
         if c.atoms > MAX_ATOMS || c.pairs > MAX_PAIRS || c.heap > limit {
             let mut j = crate::util::prog_json(&f, p.prog, p.env);
             j["resource"] = json!(name);
